@@ -92,12 +92,13 @@ func genC20(r *rand.Rand, t *Trace, thorough bool) {
 			mz = 1
 			t.Stat("kmeans.subspace_entry_point")
 		}
-		run := func() ([][]float32, []int) {
+		runIt := func(maxIter int) ([][]float32, []int) {
 			if sub {
 				return comet.KMeansSubspace(vs, k, maxIter)
 			}
 			return comet.KMeans(vs, k, d, maxIter)
 		}
+		run := func() ([][]float32, []int) { return runIt(maxIter) }
 		cents, mapping := run()
 		changed := !vecsEqualBits(vs, orig)
 		cents2, mapping2 := run()
@@ -107,7 +108,19 @@ func genC20(r *rand.Rand, t *Trace, thorough bool) {
 				nondet = true
 			}
 		}
-		c := NewCase(2001).Vecs(orig).N(k).N(mz).N(maxIter).B(cents == nil).Vecs(cents).Ints(mapping).B(changed).B(nondet)
+		// a witness of convergence taken from the implementation itself: one more iteration allowed, the
+		// same answer -- the run had settled, so every vector must sit with its nearest centroid
+		cents3, mapping3 := runIt(maxIter + 1)
+		stable := cents != nil && maxIter >= 1 && vecsEqualBits(cents, cents3) && len(mapping) == len(mapping3)
+		for i := range mapping {
+			if stable && mapping[i] != mapping3[i] {
+				stable = false
+			}
+		}
+		if stable {
+			t.Stat("kmeans.settled_run")
+		}
+		c := NewCase(2001).Vecs(orig).N(k).N(mz).N(maxIter).B(cents == nil).Vecs(cents).Ints(mapping).B(changed).B(nondet).B(stable)
 		st := "kmeans.k_le_n"
 		if k > n {
 			st = "kmeans.k_gt_n"
